@@ -3,7 +3,7 @@ open Util
 open NgModel
 open Ngshared
 
-let run (id : string) (ops : string list) (out : out_channel) =
+let prepare (ops : string list) =
   let sec = ref { sc_hw = []; sc_os = []; sc_app = []; sc_comment = [] } in
   let i0 = ref None and wops = ref [] and raw = ref None in
   let ro = ref "000" and zc = ref false and reads = ref [] in
@@ -28,14 +28,18 @@ let run (id : string) (ops : string list) (out : out_channel) =
     | "mode" -> zc := (arg = "zc")
     | "full" | "cut" | "cutall" -> reads := op :: !reads
     | _ -> failwith ("c14ng op: " ^ op)) ops;
+  (!sec, !i0, Stdlib.List.rev !wops, !raw, parse_ro !ro !zc, Stdlib.List.rev !reads)
+
+let run (id : string) (ops : string list) (out : out_channel) =
+  let (sec, i0, wops, raw, ropt, reads) = prepare ops in
   let step = ref 0 in
   let emit s = Printf.fprintf out "%s\t%d\t%s\n" id !step s; incr step in
   let file =
-    match !raw, !i0 with
+    match raw, i0 with
     | Some f, _ -> Some f
     | None, None -> emit "w=noif"; None
     | None, Some f0 ->
-      let blocks = write_blocks !sec f0 (Stdlib.List.rev !wops) in
+      let blocks = write_blocks sec f0 wops in
       let file = Stdlib.List.concat (Stdlib.List.map fst blocks) in
       emit (Printf.sprintf "w=%s;file=%s" (String.concat "," (Stdlib.List.map (fun (_, ok) -> if ok then "ok" else "err") blocks)) (hex_of_bytes file));
       Some file in
@@ -43,7 +47,6 @@ let run (id : string) (ops : string list) (out : out_channel) =
   | None -> ()
   | Some file ->
     let n = Stdlib.List.length file in
-    let ropt = parse_ro !ro !zc in
     let sess d = sres_of (fst (session_flat ropt d false)) in
     Stdlib.List.iter (fun rd ->
       if rd = "full" then Stdlib.List.iter emit (session_lines (sess file))
@@ -53,6 +56,20 @@ let run (id : string) (ops : string list) (out : out_channel) =
         let k = int_of_string (String.sub rd 4 (String.length rd - 4)) in
         let k = if k > n then n else k in
         emit (summary_line k (sess (take k file)))
-      end) (Stdlib.List.rev !reads)
+      end) reads
 
 let registered = Registry.register "C14ng" run
+
+(* extraction cross-check inside Coq: the written file read whole and cut in the middle *)
+let to_coq (idx : int) (ops : string list) (out : out_channel) =
+  let (sec, i0, wops, raw, ropt, _) = prepare ops in
+  let file = match raw, i0 with
+    | Some f, _ -> Some f
+    | None, Some f0 -> Some (write_file sec f0 wops)
+    | None, None -> None in
+  match file with
+  | Some f when Stdlib.List.length f <= 600 ->
+    ng_coq_flat out (Printf.sprintf "sample_%d" idx) ropt f;
+    ng_coq_flat out (Printf.sprintf "sample_%d_cut" idx) ropt (take (Stdlib.List.length f * 2 / 3) f)
+  | _ -> ()
+let registered_coq = Registry.register_coq "C14ng" (ng_coq_header, to_coq)
